@@ -42,40 +42,35 @@
 (***************************************************************************)
 EXTENDS KeccakF
 
-\* ---- state bits <-> lanes ----------------------------------------------------
+\* A sequence given as a function with domain 1..n, as a concrete tuple.  (TLC keeps [j \in 1..n |-> e] lazy and
+\* would re-evaluate e at every access; SubSeq enumerates it once.  Recursion with Append over n = 1600 elements
+\* is quadratic in TLC, because every bound name on the call chain lengthens every later symbol lookup.)
+Tup(f, n) == SubSeq(f, 1, n)
+
+\* ---- state bits <-> lanes (FIPS 202 3.1.2: A[x, y, z] = S[w(5y + x) + z]) ------
 \* sum_{z < n} 2^z S[o + z + 1]
 RECURSIVE BitsNat(_,_,_,_)
 BitsNat(S, o, n, acc) == IF n = 0 THEN acc ELSE BitsNat(S, o, n - 1, 2*acc + S[o + n])
 Limb16(S, o) == S[o+1] + 2*S[o+2] + 4*S[o+3] + 8*S[o+4] + 16*S[o+5] + 32*S[o+6] + 64*S[o+7] + 128*S[o+8]
                 + 256*S[o+9] + 512*S[o+10] + 1024*S[o+11] + 2048*S[o+12] + 4096*S[o+13] + 8192*S[o+14]
-                + 16384*S[o+15] + 32768*S[o+16]
+                + 16384*S[o+15] + 32768*S[o+16]                                    \* = BitsNat(S, o, 16, 0)
 LaneOfBits(w, S, o) == IF w = 64 THEN <<Limb16(S, o), Limb16(S, o + 16), Limb16(S, o + 32), Limb16(S, o + 48)>>
                        ELSE IF w = 32 THEN <<Limb16(S, o), Limb16(S, o + 16)>>
                        ELSE <<BitsNat(S, o, w, 0)>>
-BitsToLanes(w, S) == LET F(i) == LaneOfBits(w, S, w*i) IN BuildW(F, 0, 25, <<>>)
-
-\* the n low bits of v, least significant first
-RECURSIVE NatBits(_,_,_)
-NatBits(v, n, acc) == IF n = 0 THEN acc ELSE NatBits(v \div 2, n - 1, Append(acc, v % 2))
-Bits16(v) == <<v % 2, (v \div 2) % 2, (v \div 4) % 2, (v \div 8) % 2, (v \div 16) % 2, (v \div 32) % 2,
-               (v \div 64) % 2, (v \div 128) % 2, (v \div 256) % 2, (v \div 512) % 2, (v \div 1024) % 2,
-               (v \div 2048) % 2, (v \div 4096) % 2, (v \div 8192) % 2, (v \div 16384) % 2, (v \div 32768) % 2>>
-LaneBits(w, a) == IF w = 64 THEN Bits16(a[1]) \o Bits16(a[2]) \o Bits16(a[3]) \o Bits16(a[4])
-                  ELSE IF w = 32 THEN Bits16(a[1]) \o Bits16(a[2])
-                  ELSE NatBits(a[1], w, <<>>)
-RECURSIVE LanesToBitsR(_,_,_,_)
-LanesToBitsR(w, A, i, acc) == IF i > 25 THEN acc ELSE LanesToBitsR(w, A, i + 1, acc \o LaneBits(w, A[i]))
-LanesToBits(w, A) == LanesToBitsR(w, A, 1, <<>>)
+BitsToLanes(w, S) == Tup([i \in 1..25 |-> LaneOfBits(w, S, w*(i - 1))], 25)
+\* bit z of lane a is WBit(a, z) for every width (z < 16 when there is one limb)
+LanesToBits(w, A) == Tup([j \in 1..25*w |-> WBit(A[((j - 1) \div w) + 1], (j - 1) % w)], 25*w)
 
 FBits(w, S) == LanesToBits(w, KeccakF(w, BitsToLanes(w, S)))
 
 \* ---- bit strings -------------------------------------------------------------
-ZeroBits(n) == Rep(0, n)
-XorBits(a, b) == XorBytes(a, b)
+ZeroBits(n) == Tup([j \in 1..n |-> 0], n)
+XorBits(a, b) == LET n == IF Len(a) < Len(b) THEN Len(a) ELSE Len(b) IN Tup([j \in 1..n |-> a[j] ^^ b[j]], n)
 Pad101(L, r) == <<1>> \o ZeroBits((r - ((L + 2) % r)) % r) \o <<1>>
 
 \* ---- sponge (FIPS 202 algorithm 8) ------------------------------------------
-AbsorbBlock(w, r, S, blk) == FBits(w, XorBits(SubSeq(S, 1, r), blk) \o SubSeq(S, r + 1, 25*w))
+\* S xor (blk || 0^c), then f
+AbsorbBlock(w, r, S, blk) == FBits(w, Tup([j \in 1..25*w |-> IF j <= r THEN S[j] ^^ blk[j] ELSE S[j]], 25*w))
 RECURSIVE Absorb(_,_,_,_)
 Absorb(w, r, S, P) == IF Len(P) = 0 THEN S
                       ELSE Absorb(w, r, AbsorbBlock(w, r, S, SubSeq(P, 1, r)), SubSeq(P, r + 1, Len(P)))
@@ -91,19 +86,15 @@ DuplexStep(w, r, S, sigma, d) == LET S2 == AbsorbBlock(w, r, S, sigma \o Pad101(
                                  IN [S |-> S2, out |-> SubSeq(S2, 1, d)]
 
 \* ---- bytes <-> bits, FIPS 202 appendix B.1 ------------------------------------
-Bits8(v) == <<v % 2, (v \div 2) % 2, (v \div 4) % 2, (v \div 8) % 2, (v \div 16) % 2, (v \div 32) % 2,
-              (v \div 64) % 2, (v \div 128) % 2>>
-RECURSIVE BytesToBitsR(_,_,_)
-BytesToBitsR(bs, i, acc) == IF i > Len(bs) THEN acc ELSE BytesToBitsR(bs, i + 1, acc \o Bits8(bs[i]))
-BytesToBitsLSB(bytes) == BytesToBitsR(bytes, 1, <<>>)
-BitOr0(s, i) == IF i <= Len(s) THEN s[i] ELSE 0
-RECURSIVE BitsToBytesR(_,_,_)
-BitsToBytesR(bits, o, acc) ==
-   IF o >= Len(bits) THEN acc
-   ELSE BitsToBytesR(bits, o + 8, Append(acc, BitOr0(bits, o+1) + 2*BitOr0(bits, o+2) + 4*BitOr0(bits, o+3)
-            + 8*BitOr0(bits, o+4) + 16*BitOr0(bits, o+5) + 32*BitOr0(bits, o+6) + 64*BitOr0(bits, o+7)
-            + 128*BitOr0(bits, o+8)))
-BitsToBytesLSB(bits) == BitsToBytesR(bits, 0, <<>>)
+\* bit i of byte number j (from 0) is bit 8j + i of the string
+BytesToBitsLSB(bytes) == Tup([j \in 1..8*Len(bytes) |-> (bytes[((j - 1) \div 8) + 1] \div Pow2((j - 1) % 8)) % 2], 8*Len(bytes))
+BitOr0(s, j) == IF j <= Len(s) THEN s[j] ELSE 0
+BitsToBytesLSB(bits) ==
+   LET n == (Len(bits) + 7) \div 8
+   IN Tup([i \in 1..n |-> LET o == 8*(i - 1)
+                          IN BitOr0(bits, o+1) + 2*BitOr0(bits, o+2) + 4*BitOr0(bits, o+3) + 8*BitOr0(bits, o+4)
+                             + 16*BitOr0(bits, o+5) + 32*BitOr0(bits, o+6) + 64*BitOr0(bits, o+7)
+                             + 128*BitOr0(bits, o+8)], n)
 
 \* ---- the standard instances (FIPS 202 section 6) -------------------------------
 Sha3(n, bytes) == BitsToBytesLSB(SpongeHash(64, 1600 - 2*n, BytesToBitsLSB(bytes) \o <<0, 1>>, n))
